@@ -205,6 +205,15 @@ def replay(doc):
             if raw is None:
                 raw = getattr(cls, parts[1])
             rest = {k: v for k, v in args.items() if k not in ('self', 'cls')}
+            # GHOST parameters (declared by the contract, not by the target) are for pre/post only
+            try:
+                import inspect
+                fobj = raw.__func__ if isinstance(raw, (staticmethod, classmethod)) else (raw.fget if isinstance(raw, property) else raw)
+                sig = inspect.signature(fobj)
+                if not any(p.kind == p.VAR_KEYWORD for p in sig.parameters.values()):
+                    rest = {k: v for k, v in rest.items() if k in sig.parameters}
+            except (TypeError, ValueError):
+                pass
             if is_init:
                 obj = cls.__new__(cls)
                 cls.__init__(obj, **rest)
